@@ -49,6 +49,21 @@ Theorem current_stmt_rows_are_the_forest stmts p cd tx :
   In (IRow p cd tx) (ep_items child_index_mode alt_index_mode stmts) <-> forest_at stmts p cd tx.
 Proof. rewrite current_ep_items. apply stmt_rows_are_the_forest. Qed.
 
+(* the headline of the design section: paths unique AND the rows are the forest; hence two statement lists with the
+   same Stmt rows have the same visible statement at every position (the forest can be rebuilt from the rows) *)
+Theorem current_stmt_paths_unique_and_tree stmts :
+  NoDup (row_paths (ep_items child_index_mode alt_index_mode stmts)) /\
+  (forall p cd tx, In (IRow p cd tx) (ep_items child_index_mode alt_index_mode stmts) <-> forest_at stmts p cd tx).
+Proof. split; [apply current_stmt_paths_unique|intros; apply current_stmt_rows_are_the_forest]. Qed.
+
+Theorem current_stmt_rows_determine_forest s1 s2 :
+  (forall p cd tx, In (IRow p cd tx) (ep_items child_index_mode alt_index_mode s1) <->
+                   In (IRow p cd tx) (ep_items child_index_mode alt_index_mode s2)) ->
+  forall p cd tx, forest_at s1 p cd tx <-> forest_at s2 p cd tx.
+Proof.
+  intros H p cd tx. rewrite <- !current_stmt_rows_are_the_forest. apply H.
+Qed.
+
 (* one row per element of the module, in every relation, for the CURRENT source *)
 Theorem current_census_exact_counts m rs :
   normalize child_index_mode alt_index_mode m = Rows rs -> forall R, rel_count R rs = census R m.
